@@ -344,3 +344,41 @@ def substitute(t, mapping):
             return tuple(go(a) for a in x)
         return x
     return go(t)
+
+
+def t_slice(base, lo, hi):
+    """normal form of base[lo:hi] for byte strings (lo, hi >= 0 or None)"""
+    if isinstance(base, bytearray):
+        base = bytes(base)
+    lo = 0 if lo is None else lo
+    n = t_len(base)
+    if hi is None:
+        hi = n
+    if isinstance(base, bytes) and isinstance(lo, int) and isinstance(hi, int):
+        return base[lo:hi]
+    if isinstance(lo, int) and isinstance(hi, int) and 0 <= hi <= lo:
+        return b""
+    if isinstance(lo, int) and isinstance(hi, int) and lo >= 0 and hi >= 0:
+        parts = list(base.args) if isinstance(base, Term) and base.op == "concat" else [base]
+        out, pos, ok = [], 0, True
+        for p in parts:
+            pl = t_len(p)
+            if not isinstance(pl, int):
+                ok = False
+                break
+            a, bnd = max(lo, pos), min(hi, pos + pl)
+            if a < bnd:
+                if a == pos and bnd == pos + pl:
+                    out.append(p)
+                elif isinstance(p, bytes):
+                    out.append(p[a - pos: bnd - pos])
+                else:
+                    out.append(Term("slice", (p, a - pos, bnd - pos), "bytes"))
+            pos += pl
+            if pos >= hi:
+                break
+        if ok:
+            return t_concat(out)
+    if isinstance(lo, int) and lo == 0 and hi is n:
+        return base
+    return Term("slice", (base, lo, hi), "bytes")
